@@ -439,6 +439,7 @@ pub fn expand_glob(tokens: &mut types::Tokens) {
     }
 }
 
+#[allow(dead_code)] // superseded by expand_env_once
 fn expand_one_env(sh: &Shell, token: &str) -> String {
     // do not combine these two into one: `\{?..\}?`,
     // otherwize `}` in `{print $NF}` would gone.
@@ -482,6 +483,79 @@ fn expand_one_env(sh: &Shell, token: &str) -> String {
         result.push_str(&tail);
     }
 
+    result
+}
+
+/// The reference at the start of `s`, which follows a `$`: `NAME`, `?`, `$`,
+/// `{NAME}`, `{?}` or `{$}`. Returns the key and the number of chars spanned.
+fn env_ref_at(s: &[char]) -> Option<(String, usize)> {
+    fn is_start(c: char) -> bool {
+        c.is_ascii_alphabetic() || c == '_'
+    }
+    fn name_len(s: &[char]) -> usize {
+        s.iter().take_while(|c| c.is_ascii_alphanumeric() || **c == '_').count()
+    }
+    match s.first() {
+        Some(&c) if c == '?' || c == '$' => Some((c.to_string(), 1)),
+        Some(&c) if is_start(c) => {
+            let n = name_len(s);
+            Some((s[..n].iter().collect(), n))
+        }
+        Some(&'{') => {
+            let rest = &s[1..];
+            match rest.first() {
+                Some(&c) if (c == '?' || c == '$') && rest.get(1) == Some(&'}') => {
+                    Some((c.to_string(), 3))
+                }
+                Some(&c) if is_start(c) => {
+                    let n = name_len(rest);
+                    if rest.get(n) == Some(&'}') {
+                        Some((rest[..n].iter().collect(), n + 2))
+                    } else {
+                        None
+                    }
+                }
+                _ => None,
+            }
+        }
+        _ => None,
+    }
+}
+
+/// Replace every `$NAME`, `${NAME}`, `$?`, `$$` of `token` by its value in one
+/// left-to-right pass. The inserted values are not scanned again, so the
+/// expansion always terminates and values may contain `$` themselves.
+fn expand_env_once(sh: &Shell, token: &str) -> String {
+    let chars: Vec<char> = token.chars().collect();
+    let mut result = String::new();
+    let mut i = 0;
+    while i < chars.len() {
+        if chars[i] != '$' {
+            result.push(chars[i]);
+            i += 1;
+            continue;
+        }
+        match env_ref_at(&chars[i + 1..]) {
+            Some((key, n)) => {
+                if key == "?" {
+                    result.push_str(&sh.previous_status.to_string());
+                } else if key == "$" {
+                    unsafe {
+                        result.push_str(&libc::getpid().to_string());
+                    }
+                } else if let Ok(val) = env::var(&key) {
+                    result.push_str(&val);
+                } else if let Some(val) = sh.get_env(&key) {
+                    result.push_str(&val);
+                }
+                i += 1 + n;
+            }
+            None => {
+                result.push('$');
+                i += 1;
+            }
+        }
+    }
     result
 }
 
@@ -809,11 +883,7 @@ pub fn expand_env(sh: &Shell, tokens: &mut types::Tokens) {
             continue;
         }
 
-        let mut _token = token.clone();
-        while env_in_token(&_token) {
-            _token = expand_one_env(sh, &_token);
-        }
-        buff.push((idx, _token));
+        buff.push((idx, expand_env_once(sh, token)));
         idx += 1;
     }
 
